@@ -301,6 +301,15 @@ func (bc *BlockChain) SetHead(head uint64) error {
 	}
 	// Rewind the header chain, deleting all block bodies until then
 	delFn := func(hash common.Hash, num uint64) {
+		// Transaction lookups that point into the removed block go with it: left behind they
+		// resolve again, to a non-canonical block, once the block is stored anew as a side block
+		if body := GetBodyNoVersion(bc.db, hash, num); body != nil {
+			for _, tx := range body.Transactions {
+				if blockHash, _, _ := GetTxLookupEntry(bc.db, tx.Hash()); blockHash == hash {
+					DeleteTxLookupEntry(bc.db, tx.Hash())
+				}
+			}
+		}
 		DeleteBody(bc.db, hash, num)
 	}
 	bc.hc.SetHead(head, delFn)
